@@ -125,9 +125,7 @@ def stepEvent (r : Run17) (k : Nat) (e : Json) (tlo thi : List Rat) (xlo xhi : L
     if c.kind.hasT && storeT != r.storeT then r := note r k "time store changed without a step"
     if c.kind.hasX && storeX != r.storeX then r := note r k "space store changed without a step"
   let iterNb ← getNat e "iterNb"
-  let fromLast ← getNat e "fromLast"
   if g'.st.steps != iterNb then r := note r k s!"rar_iter_nb: model {g'.st.steps}, implementation {iterNb}"
-  if g'.st.fromLast != fromLast then r := note r k s!"rar_iter_from_last_sampling: model {g'.st.fromLast}, implementation {fromLast}"
   if c.kind.hasT && g'.st.pT != pT then r := note r k "p_times non-zero pattern differs from the model"
   if c.kind.hasX && g'.st.pX != pX then r := note r k "p_omega non-zero pattern differs from the model"
   -- continue from the implementation's stores (the chosen points were taken from it anyway)
@@ -144,13 +142,11 @@ def finalEvent (r : Run17) (k : Nat) (e : Json) (storeT0 storeX0 : List Nat) (pT
   let pT ← getBoolListD e "pT"
   let pX ← getBoolListD e "pX"
   let iterNb ← getNat e "iterNb"
-  let fromLast ← getNat e "fromLast"
   let mut r := r
   r := { r with evs := r.evs ++
     (if c.kind.hasT then [Ev17.summary "times" (maskedPts storeT0 pT0) (maskedPts storeT pT) r.addedT] else []) ++
     (if c.kind.hasX then [Ev17.summary "omega" (maskedPts storeX0 pX0) (maskedPts storeX pX) r.addedX] else []) }
   if r.g.st.steps != iterNb then r := note r k s!"rar_iter_nb: model {r.g.st.steps}, implementation {iterNb}"
-  if r.g.st.fromLast != fromLast then r := note r k s!"rar_iter_from_last_sampling: model {r.g.st.fromLast}, implementation {fromLast}"
   if c.kind.hasT && r.g.st.pT != pT then r := note r k "p_times non-zero pattern differs from the model"
   if c.kind.hasX && r.g.st.pX != pX then r := note r k "p_omega non-zero pattern differs from the model"
   pure r
